@@ -49,7 +49,7 @@ ALL = ['h_berkowitz', 'h_entrywise', 'h_rowcol_ops', 'h_submatrix_insert_delete'
 
 def units(tier):
     ents = []
-    BIG = {'h_special': 14, 'h_inv_fflu': 0, 'h_ffldu': 0, 'h_berkowitz': 0}       # routines with loops over row*col entries
+    BIG = {'h_special': 14, 'h_inv_fflu': 0, 'h_ffldu': 0, 'h_berkowitz': 0, 'h_submatrix_insert_delete': 0}       # the last one: so that a flat rewrite of the shifting loops still fits the bound       # routines with loops over row*col entries
     def add(h, p, n, m=None, timeout=900):
         d = {'FP': p, 'NN': n, 'CAP': 16}
         if m is not None:
